@@ -83,7 +83,7 @@ GRID = [0, math.pi / 4, -math.pi / 4, math.pi / 2, -math.pi / 2, math.pi, -math.
 
 
 def classes(tier):
-    return ["sym", "fixed", "grid", "num_random", "num_group", "group_int", "history", "spelling", "impostor"]
+    return ["sym", "fixed", "grid", "num_random", "num_group", "group_int", "history", "spelling", "impostor", "exprparams"]
 
 
 # ------------------------------------------------------------------ CAS pipeline
@@ -813,6 +813,37 @@ def run_case(ctx):
             _make(name, params).matrix
         except Exception:
             pass
+        return
+    if cls == "exprparams":
+        # parameters that are EXPRESSIONS in a real symbol (2*x, -x, x + 1/2, x/3; none of them a bare symbol), mixed with
+        # numbers: the matrix can be computed, and at every real value of x it is the matrix of the gate built with the
+        # numbers - "for every real value of its parameters" however the parameter is written
+        names_ = sorted(n for n in tab if tab[n]["nparams"])
+        name = names_[(ctx.index // 4) % len(names_)]
+        if name == "U3" and (ctx.index // 4) // len(names_) % 3:
+            name = "RX"  # U3 goes through sympy.simplify (0.2 - 1 s per matrix): one round in three
+        e = tab[name]
+        npar = e["nparams"]
+        x = sympy.Symbol("x", real=True)
+        forms = [2 * x, -x, x + sympy.Rational(1, 2), x / 3, 1 - x, x * sympy.pi]
+        params = []
+        for j in range(npar):
+            params.append(rng.choice(forms) if (j == 0 or rng.random() < 0.5) else round(rng.uniform(-3, 3), 3))
+        params = tuple(params)
+        ctx.describe(f"exprparams {name}{params}", True)
+        try:
+            Ms = _make(name, params).matrix
+        except Exception as ex:
+            ctx.check("expr-computable", False, f"{name}{params}.matrix raised {ex!r}")
+            return
+        for v in (round(rng.uniform(-3, 3), 4), 0, rng.choice([1, -2, 0.5])):
+            at = tuple(float(p.xreplace({x: v})) if isinstance(p, sympy.Basic) else p for p in params)
+            A = GC.to_np(Ms.xreplace({x: sympy.Float(v) if isinstance(v, float) else sympy.Integer(v)}))
+            B = GC.to_np(_make(name, at).matrix)
+            d = L.maxdiff(A, B)
+            ctx.check("expr-value", d <= 1e-9, lambda: f"{name}{params} at x={v} differs from {name}{at} by {d}")
+            ctx.check("expr-unitary", L.maxdiff(A.conj().T @ A, np.eye(A.shape[0])) <= 1e-9,
+                      lambda: f"{name}{params} at x={v} is not unitary")
         return
     if cls == "num_group":
         name = rng.choice(GROUP_GATES)
